@@ -50,6 +50,21 @@ def junk_files(rng, sample_pel):
     return j[:rng.randrange(1, len(j) + 1)]
 
 
+def model_undecodable(env, junk):
+    """{(kind, bytes): the model's mode of that kind produces a diagnostic for a directory holding just this file}"""
+    modes = {'summary': 'list', 'full': 'all', 'headers': 'count'}
+    reqs, keys = [env.tokens()], []
+    for _, b in junk:
+        for kind, mode in modes.items():
+            reqs.append(clirun.model_req(mode, [('f', b)], {'every': 1}))
+            keys.append((kind, b))
+    out = {}
+    for k, r in zip(keys, lean_batch(reqs)[1:]):
+        r.text()
+        out[k] = r.num() >= 1
+    return out
+
+
 def undecodable(kind, data):
     """is `data` a file that this kind of mode cannot decode? (summary modes stop at the primary SRC, count reads two headers)"""
     import io
@@ -113,8 +128,10 @@ def run(tier, seed):
             dirty = clirun.make_dir(files + junk, subdirs={'archive': [('valid_in_subdir', sample)], 'sub2': {'deep': [('x', b'PH')]}})
             # "files that the mode cannot decode": the summary modes stop at the primary SRC, the count mode reads two headers
             dirs = {}
+            verdict = model_undecodable(env, junk)
             for kind in ('summary', 'full', 'headers'):
-                jk = [(n, b) for n, b in junk if undecodable(kind, b)]
+                # which of the junk files this kind of mode cannot decode is the MODEL's verdict (the code under test is what is being judged)
+                jk = [(n, b) for n, b in junk if verdict[(kind, b)]]
                 dirs[kind] = (clirun.make_dir(files + jk, subdirs={'archive': [('valid_in_subdir', sample)], 'sub2': {'deep': [('x', b'PH')]}}), jk)
                 paths.append(dirs[kind][0])
             paths += [clean, dirty]
